@@ -4,7 +4,9 @@
   edited package must still compile; the named rule must report a finding that is not in the
   known-findings file.
 * BENIGN: behaviour-preserving edits (renames, reordering of independent statements, extra logging).
-  The rules must stay silent (no new finding) and must not hit an ANALYSIS-ERROR.
+  The rules must stay silent (no new finding) and must not hit an ANALYSIS-ERROR.  Every property
+  also gets four whole-package rewrites (bsa/variants.py): ast round trip (layout), a logging call at
+  the start of every statement list, reworded / added docstrings, and every local variable renamed.
 
 Edits are exact-once text substitutions on a copy of /repo/src/bluesky made under tempfile.mkdtemp()
 (outside /repo and /verif) and removed before exit.  The copy is only parsed, never imported or run.
@@ -52,7 +54,13 @@ def _run_variant(args):
     try:
         dst = os.path.join(tmp, PKG_REL)
         shutil.copytree(os.path.join(REPO, PKG_REL), dst, ignore=shutil.ignore_patterns("tests", "__pycache__", "*.pyc"))
-        err = _apply(tmp, edits)
+        if isinstance(edits, str) and edits.startswith("global:"):
+            from .variants import rewrite_tree
+
+            rewrite_tree(edits.split(":", 1)[1], dst)
+            err = None
+        else:
+            err = _apply(tmp, edits)
         if err:
             return (name, kind, "stale", err, [])
         mod = importlib.import_module(modname)
@@ -91,6 +99,11 @@ def run_for(ctx: Ctx, mod, workers: int = 16):
     for b in benign:
         name, edits = b
         jobs.append((ctx.prop, mod.__name__, name, edits, [], "benign"))
+    from .variants import GLOBAL_VARIANTS
+
+    for v in GLOBAL_VARIANTS:
+        benign = list(benign) + [(f"whole package: {v}", f"global:{v}")]
+        jobs.append((ctx.prop, mod.__name__, f"whole package rewritten: {v}", f"global:{v}", [], "benign"))
     with ProcessPoolExecutor(max_workers=min(workers, len(jobs))) as ex:
         results = list(ex.map(_run_variant, jobs))
     killed = [r for r in results if r[2] == "killed"]
